@@ -149,7 +149,7 @@ TraceInit ==
   /\ uni = EmptyUni
   /\ cfg = DummyCfg /\ stable = <<>> /\ tree = [anchor |-> 1, arr |-> <<1>>] /\ ing = NoIng
   /\ next = {} /\ sync = [fetching |-> FALSE, resp |-> NoResp] /\ fee = NoFee /\ cnt = ZeroCnt
-  /\ now = 0 /\ known = {1} /\ flight = {} /\ walks = <<>>
+  /\ now = 0 /\ known = {1} /\ flight = {} /\ walks = {}
 
 Consume == l <= Len(Rec) /\ l' = l + 1
 
@@ -180,11 +180,17 @@ Land(m2, extra) ==
      ELSE /\ Install(m2) /\ UNCHANGED <<uni, nad>>
           /\ bad' = ~AllAgree(extra \o PostChecks(m2, R.post))
 
+\* The specification itself expects the message to trap: the only such case is the listed
+\* finding KF_ThresholdRaiseWhilePaused (the anchor's ingestion completes but, because the
+\* stability threshold was raised while it was paused, no child of the anchor is stable any more
+\* and `pop` returns None).
 ExpectTrap(tag) ==
   /\ UNCHANGED <<lastq, upg>>
   /\ IF R.out = "trap"
      THEN /\ UNCHANGED <<vars, nad>> /\ bad' = TRUE
-          /\ Note("EXPECTEDTRAP", tag, R.msg)
+          /\ PrintT("@@" \o ToJson([kind |-> "KNOWN", l |-> l, ev |-> R.ev, tag |-> tag,
+                                     kf |-> {"KF_ThresholdRaiseWhilePaused"}, exp |-> "trap", got |-> R.msg,
+                                     paused |-> ing.b # 0, upg |-> upg]))
      ELSE /\ UNCHANGED <<vars, nad>> /\ bad' = TRUE
           /\ Note("MISMATCH", "trap", "the specification expects this message to trap")
 
@@ -361,7 +367,92 @@ TraceFees ==
         /\ bad' = ~AllAgree(Gated(m, "get_current_fee_percentiles", << <<"fees.values", ev.ans, R.ans.vals>> >>)
                             \o PostChecks(m2, R.post))
 
+(***************************************************************************)
+(* Paginated walks (C06): the client keeps the token; the specification    *)
+(* keeps what the walk must deliver: the ledger of the address as of the   *)
+(* tip named by the first page.                                            *)
+(***************************************************************************)
+SeqSet(sq) == {sq[i] : i \in 1..Len(sq)}
+LimOf(x) == IF x = 0 THEN 1000 ELSE x
+MinH(us, dflt) == IF Len(us) = 0 THEN dflt ELSE us[Len(us)][4]
+
+TraceWalkStart ==
+  /\ Live("walk_start")
+  /\ UNCHANGED <<uni, cfg, stable, tree, ing, next, sync, fee, cnt, now, known, flight, bad, nad, lastq, upg>>
+  /\ LET m == St
+         reasons == GateReasons(m, "get_utxos", cfg.net)
+         c == IF R.mc < 0 THEN 0 ELSE R.mc
+     IN IF reasons # {}
+        THEN /\ walks' = walks
+             /\ AllAgree(<< <<"gate.refuse.get_utxos", "trap", R.ans.k>> >>) \in BOOLEAN
+        ELSE IF c > Len(Best(m))
+        THEN /\ walks' = walks
+             /\ AllAgree(<< <<"walk.error", [k |-> "err", err |-> "MinConfirmationsTooLarge"], R.ans>> >>) \in BOOLEAN
+        ELSE IF R.ans.k # "ok"
+        THEN /\ walks' = walks
+             /\ AllAgree(<< <<"walk.answer", "ok", R.ans>> >>) \in BOOLEAN
+        ELSE LET v == UtxosView(m, R.addr, c)
+                 page == SeqSet(R.ans.utxos)
+                 ok == AllAgree(<< <<"walk.tip", v.tip, R.ans.tip>>,
+                                   <<"walk.tipHeight", v.tipHeight, R.ans.tipHeight>>,
+                                   <<"walk.subset", TRUE, page \subseteq v.entries>>,
+                                   <<"walk.once", Cardinality(page), Len(R.ans.utxos)>>,
+                                   <<"walk.pageSize", TRUE, Len(R.ans.utxos) <= LimOf(R.limit)>>,
+                                   <<"walk.order", TRUE, NonIncreasingHeights(R.ans.utxos)>>,
+                                   <<"walk.more", page # v.entries, R.ans.more>> >>)
+             IN walks' = IF ok /\ R.ans.more
+                         THEN {x \in walks : x.w # R.w} \cup
+                              {[w |-> R.w, addr |-> R.addr, tip |-> v.tip, tipHeight |-> v.tipHeight, exp |-> v.entries,
+                                seen |-> page, lastH |-> MinH(R.ans.utxos, 1000000000), lim |-> LimOf(R.limit)]}
+                         ELSE {x \in walks : x.w # R.w}
+
+TraceWalkNext ==
+  /\ Live("walk_next")
+  /\ UNCHANGED <<uni, cfg, stable, tree, ing, next, sync, fee, cnt, now, known, flight, bad, nad, lastq, upg>>
+  /\ IF ~\E x \in walks : x.w = R.w
+     THEN walks' = walks      \* a walk the specification gave up on (already reported)
+     ELSE LET m == St
+              x == CHOOSE y \in walks : y.w = R.w
+              reasons == GateReasons(m, "get_utxos", cfg.net)
+          IN IF reasons # {}
+             THEN /\ walks' = walks
+                  /\ AllAgree(<< <<"gate.refuse.get_utxos", "trap", R.ans.k>> >>) \in BOOLEAN
+             ELSE IF x.tip \notin InTree(m.T)
+             THEN /\ walks' = {y \in walks : y.w # R.w}
+                  /\ AllAgree(<< <<"walk.tipGone", [k |-> "err", err |-> "UnknownTipBlockHash"], R.ans>> >>) \in BOOLEAN
+             ELSE IF R.ans.k # "ok"
+             THEN /\ walks' = {y \in walks : y.w # R.w}
+                  /\ AllAgree(<< <<"walk.answer", "ok", R.ans>> >>) \in BOOLEAN
+             ELSE LET page == SeqSet(R.ans.utxos)
+                      seen2 == x.seen \cup page
+                      ok == AllAgree(<< <<"walk.tip", x.tip, R.ans.tip>>,
+                                        <<"walk.tipHeight", x.tipHeight, R.ans.tipHeight>>,
+                                        <<"walk.subset", TRUE, page \subseteq (x.exp \ x.seen)>>,
+                                        <<"walk.once", Cardinality(page), Len(R.ans.utxos)>>,
+                                        <<"walk.pageSize", TRUE, Len(R.ans.utxos) <= x.lim>>,
+                                        <<"walk.order", TRUE, NonIncreasingHeights(R.ans.utxos)
+                                                              /\ (Len(R.ans.utxos) = 0 \/ R.ans.utxos[1][4] <= x.lastH)>>,
+                                        <<"walk.progress", TRUE, Len(R.ans.utxos) >= 1 \/ ~R.ans.more>>,
+                                        <<"walk.more", seen2 # x.exp, R.ans.more>> >>)
+                  IN walks' = IF ok /\ R.ans.more
+                              THEN {y \in walks : y.w # R.w} \cup
+                                   {[x EXCEPT !.seen = seen2, !.lastH = MinH(R.ans.utxos, x.lastH)]}
+                              ELSE {y \in walks : y.w # R.w}
+
+\* an arbitrary byte string as page: an answer or an explicit error, never a trap
+TracePageRaw ==
+  /\ Live("page_raw")
+  /\ UNCHANGED <<vars, bad, nad, lastq, upg>>
+  /\ LET m == St
+         reasons == GateReasons(m, "get_utxos", cfg.net)
+     IN AllAgree(IF reasons # {} THEN << <<"gate.refuse.get_utxos", "trap", R.ans.k>> >>
+                 ELSE IF R.len # 72 THEN << <<"page.malformed", [k |-> "err", err |-> "MalformedPage"], R.ans>> >>
+                 ELSE IF R.tipId = 0 \/ R.tipId \notin InTree(m.T)
+                      THEN << <<"page.unknownTip", [k |-> "err", err |-> "UnknownTipBlockHash"], R.ans>> >>
+                 ELSE << <<"page.noTrap", TRUE, R.ans.k # "trap">> >>) \in BOOLEAN
+
 TraceNext ==
+  \/ TraceWalkStart \/ TraceWalkNext \/ TracePageRaw
   \/ TraceUniverse \/ Skip \/ TraceTick \/ TraceHb \/ TraceHbSend \/ TraceHbReply
   \/ TraceSetConfig \/ TraceUpgrade \/ TracePush \/ TraceIngest
   \/ TraceQuery \/ TraceFees
